@@ -672,6 +672,27 @@ def spec_search(ctx, shim, model, r, nfonts):
                          "and no crash")
 
 
+def seed_search(ctx, shim, model):
+    """corpus/C17/seeds.json: requests that once crashed the crate; they must pass for good."""
+    import json
+    path = os.path.join(vlib.ROOT, "corpus", "C17", "seeds.json")
+    seeds = json.load(open(path))["seeds"] if os.path.exists(path) else []
+    for sd in seeds:
+        ln = sd["request"]
+        x = vlib.run_lines(shim, [ln], nproc=1, timeout=120)[0]
+        y = vlib.run_lines(model, [ln], nproc=1, timeout=120)[0]
+        z = vlib.run_lines(model, [ln.replace("morx run", "morx spec", 1)], nproc=1, timeout=120)[0]
+        bad = None
+        if not x.startswith("ok"): bad = "crate: " + x[:120]
+        elif canon(x) != canon(y): bad = "crate and model differ"
+        elif z.startswith("ok") and gids_of(x.split()[3]) != gids_of(z.split()[1]): bad = "crate differs from the AAT reference"
+        if bad:
+            ctx.violation(f"corpus seed {sd['name']}: {bad}", {"stage": "search", "stream": "morx-seeds", "seed": sd["name"],
+                          "request": ln, "crate": x[:300], "model": y[:300], "spec": z[:300]})
+    ctx.note_search("morx-seeds", len(seeds), len(seeds), rule="corpus/C17/seeds.json, run first: no panic, crate == model, "
+                    "crate == reference where defined")
+
+
 def verb_search(ctx, shim, model, maxlen):
     """hook `RearrangementCtx::transition` against Apple's verb table (Spec/Aat.applyVerb), all 16 verbs x all
     marked ranges: a changed nibble of MAP shows up here with the failing verb and range."""
@@ -694,7 +715,8 @@ def verb_search(ctx, shim, model, maxlen):
                     rule="16 verbs x every marked range of buffers <= %d glyphs; non-trivial = the range was permuted" % maxlen)
 
 
-CORPUS_SEEDS = ["lLAvA", "XXAYYAZZ", "ABCDE", "aeiou"]
+# "lLAvA" (TestMORXThirtyone) and "bYMBbA"/"blMXvBvA" (TestMORXTwentynine) crashed shape() before the D6 repair
+CORPUS_SEEDS = ["lLAvA", "bYMBbA", "blMXvBvA", "hMBA", "XXAYYAZZ", "ABCDE", "aeiou"]
 ALPHA = "abcdefghijklmnopqrstuvwxyzABCDEFGHIJKLMNOPQRSTUVWXYZ0123456789 .,-'"
 
 
@@ -746,7 +768,7 @@ def corpus_search(ctx, shim, r, per_font):
                       {"stage": "search", "stream": "morx-corpus", "font": base, "text": t,
                        "panic_at": site, "observed": x[:200]})
     ctx.note_search("morx-corpus", total, nontriv, fonts=len(meta),
-                    rule="every *MORX*.ttf of tests/fonts x (4 fixed + random) ASCII strings <= 8 chars through "
+                    rule="every *MORX*.ttf of tests/fonts x (7 fixed + random) ASCII strings <= 8 chars through "
                          "shape(); non-trivial = the glyph count differs from the character count")
 
 
@@ -935,6 +957,7 @@ def run(ctx):
     ctx.correspond("morx-compile", lines=compile_lines(ctx.rng("compile"), ctx.budget(1500, 80000)),
                    classify=classify_compile, canon=canon)
     # search
+    seed_search(ctx, shim, model)
     verb_search(ctx, shim, model, ctx.budget(8, 10))
     spec_search(ctx, shim, model, ctx.rng("spec"), ctx.budget(350, 20000))
     corpus_search(ctx, shim, ctx.rng("corpus"), ctx.budget(400, 15000))
@@ -965,6 +988,12 @@ def replay(ctx, rp):
         print("crate:", a[:300]); print("spec :", b[:300])
         ok = a.startswith("ok") and (b == "undef" or gids_of(a.split()[3]) == gids_of(b.split()[1]))
         return 0 if ok else 1
+    if st == "morx-seeds":
+        model = vlib.build_model()
+        a = vlib.run_lines(shim, [rp["request"]], nproc=1)[0]
+        b = vlib.run_lines(model, [rp["request"]], nproc=1)[0]
+        print("crate:", a[:300]); print("model:", b[:300])
+        return 0 if a.startswith("ok") and canon(a) == canon(b) else 1
     if st == "morx-verbs":
         model = vlib.build_model()
         a = vlib.run_lines(shim, [rp["request"]], nproc=1)[0]
